@@ -22,6 +22,9 @@ protected:
 public:
   TokenID lex() {
     lastRead = this->BaseT().DoLex();
+    if (lastRead == TokenID::LIT_INTEGER && !IsInt32(Text())) {
+      lastRead = TokenID::INTERRUPT;
+    }
     return lastRead;
   }
 
@@ -68,6 +71,15 @@ public:
   }
 
 private:
+  //! Integer literals are stored as int32_t: a digit sequence that does not fit is not a valid token
+  [[nodiscard]] static bool IsInt32(const std::string& digits) noexcept {
+    static constexpr std::string_view maxValue = "2147483647";
+    const auto firstDigit = digits.find_first_not_of('0');
+    const auto length = firstDigit == std::string::npos ? size_t{ 0 } : size(digits) - firstDigit;
+    return length < size(maxValue) ||
+      (length == size(maxValue) && digits.compare(firstDigit, length, maxValue) <= 0);
+  }
+
   [[nodiscard]] TokenData ToInt() const {
     return TokenData{ static_cast<int32_t>(std::atol(Text().c_str())) }; // TODO: strtol
   }
